@@ -25,7 +25,7 @@ META = dict(
     "parameters / individual parameters / ages / masks; each output entry is proved equal to the documented closed form, logistic "
     "outputs are proved in (0,1), non-decreasing in age, equal to 1/(1+g) at the reference point, and rows are proved to sit at the "
     "position of their requested age.",
-    bounds="dimension <= 3, sources <= 2, individuals <= 2, visits/ages <= 3; reals (no rounding/overflow)",
+    bounds="dimension <= 3, sources <= 2, individuals <= 2, visits/ages <= 3; reals (no rounding/overflow); histories on one model object: estimate, change every parameter in place, estimate again (the second follows the new parameters)",
     outside="pandas MultiIndex branch of estimate; floating-point saturation at far extrapolation",
     assumptions=["floats as reals", "exp/log abstracted with exp>0, monotonicity instances and exp(log g)=g for g>0", "IndividualParameters replaced by a plain dict in estimate (duck-typed `[]` access only)"],
 )
